@@ -2,7 +2,7 @@
 # Build the overlay virtualenv used by every check (offline; idempotent).
 set -e
 cd "$(dirname "$0")"
-V=/verif/.venv
+V="$PWD/.venv"
 if [ ! -x "$V/bin/python" ] || ! "$V/bin/python" -c "import z3, cvc5, crosshair, numpy, pymatgen" 2>/dev/null; then
   rm -rf "$V"
   /venv/bin/python -m venv "$V"
